@@ -305,6 +305,33 @@ theorem C39_dispatch_load (typ : Nat) (data : Bytes) :
         exact ⟨rfl, (C39_load_len data f' hl).2.2⟩
 
 set_option maxRecDepth 20000 in
+open ElaVerif.TxFilter in
+/-- **The relay / mempool path updates the peer's filter too.**  For every filter type that consults the
+    bloom filter on unconfirmed transactions (all but DPOS): an unconfirmed transaction paying a watched
+    script hash at output `k` is matched *and leaves the outpoint in the peer's filter*, so the transaction
+    that later spends that output is matched on either path, confirmed or unconfirmed — before the first
+    one was ever seen in a block. -/
+theorem C39_relay_pay_then_spend (mm : Murmur) (ft : FilterType) (f : Filter) (tx tx2 : Tx) (t t2 : TxFacts)
+    (k : Nat) (ph : Bytes) (hft : ft ≠ .dpos) (hlen : f.bits.length < 2 ^ 29) (hn : f.tweak ≠ 0xffffffff)
+    (hk : tx.outputs[k]? = some ph) (hm : «matches» mm f ph = some true)
+    (hin : (⟨tx.hash, k % 65536⟩ : OutPoint) ∈ tx2.inputs) :
+    ∃ g, matchUnconfirmed mm ft f tx t = some (true, g) ∧
+      (∃ g2, matchUnconfirmed mm ft g tx2 t2 = some (true, g2)) ∧
+      (∃ g2, matchConfirmed mm ft g tx2 t2 = some (true, g2)) := by
+  obtain ⟨g, hrun, hop⟩ := C39_tx_update mm f tx hlen hn k ph hk hm
+  obtain ⟨_, g0, hrun0, hle, _⟩ := matchTx_spec mm f tx hlen
+  rw [hrun] at hrun0
+  cases hrun0
+  have hlg : g.bits.length < 2 ^ 29 := by rw [hle.length]; exact hlen
+  have hng : g.tweak ≠ 0xffffffff := by rw [hle.2.1]; exact hn
+  obtain ⟨r, g2, hrun2, _, hiff⟩ := C39_tx_match_iff mm g tx2 hlg hng
+  have hr : r = true := hiff.mpr (Or.inr (Or.inr ⟨_, hin, hop⟩))
+  subst hr
+  refine ⟨g, by rw [C39_dispatch_unconfirmed mm ft f tx t hft]; exact hrun, ⟨g2, ?_⟩, ⟨g2, ?_⟩⟩
+  · rw [C39_dispatch_unconfirmed mm ft g tx2 t2 hft]; exact hrun2
+  · simp [matchConfirmed, hrun2]
+
+set_option maxRecDepth 20000 in
 /-- T-gen: the dispatch layer as the source has it — filter type numbering, the server's switch, the
     `Filter.load` body (unknown type ⇒ error), each wrapper's `Load`/`Add` (forwarded) and
     `MatchConfirmed`/`MatchUnconfirmed` expressions, the first case list of `IsDPOSTransaction`, the
@@ -347,6 +374,21 @@ theorem C39_gen_dispatch :
        TxFilter.tProposalResult, TxFilter.tCRCProposal, TxFilter.tRevertToPOW, TxFilter.tRevertToDPOS,
        TxFilter.tReturnSideChainDepositCoin] ∧
     Gen.C39.proposalTypeValues.map (·.2) = [0x0500, 0x0501, 0x0502, 0x0200, 0x02ff] := by
+  decide
+
+set_option maxRecDepth 20000 in
+/-- T-gen: the plumbing between the message handlers and the filter — `TxFilter.Load` decodes a `filterload`
+    and installs it, `Add` forwards every element of a loaded filter unconditionally, both `MatchConfirmed`
+    and `MatchUnconfirmed` run `MatchTxAndUpdate` on the peer's own filter (no snapshot); and `OutPoint.Bytes`
+    is the wire serialization (tx id, little-endian uint16 index) that `opBytes` transcribes. -/
+theorem C39_gen_plumbing :
+    Gen.C39.txFilterMethods =
+      ["Load: var fl msg.FilterLoad; err := fl.Deserialize(bytes.NewReader(filter)); if err != nil { return err }; f.filter = LoadFilter(&fl); return nil",
+       "Add: if f.filter == nil || !f.filter.IsLoaded() { return fmt.Errorf(\"filter not loaded\") }; f.filter.Add(filter); return nil",
+       "MatchConfirmed: return f.filter.MatchTxAndUpdate(tx)", "MatchUnconfirmed: return f.filter.MatchTxAndUpdate(tx)"] ∧
+    Gen.C39.outPointBytes =
+      ["Serialize: return common.WriteElements(w, &op.TxID, op.Index)",
+       "Bytes: buf := new(bytes.Buffer); op.Serialize(buf); return buf.Bytes()"] := by
   decide
 
 /-- T-gen: **what `matchTxAndUpdate` reads of a transaction** — its hash, its type, the program hash
